@@ -41,9 +41,26 @@ def run(ctx):
     count_nontrivial(ctx, ev)
     rej = ctx.validate("Trace_C19", ev, shard=150)
     ctx.confirm_and_raise("Trace_C19", rej)
+    # 4. hooked runs: every augmentation of the real routine is a step of the augmenting-path machine
+    hv = ctx.work / "hooked.ndjson"
+    out = ctx.dsv("C19", "hooked", "--out", hv, "--graphs", 600 if ctx.quick else 8000)
+    info = json.loads(out.strip().splitlines()[-1])
+    if info.get("runs", 0) > 0:
+        ctx.extra["hooked_runs"] = info["runs"]
+        rej = ctx.validate("Trace_C19h", hv, shard=400, group_field="run")
+        ctx.confirm_and_raise("Trace_C19h", rej, context_of=run_context)
+    else:
+        ctx.notes.append("hooks not compiled in: step-wise conformance of min_edge_cut skipped")
+
+
+def run_context(shard, at):
+    import re
+    g = re.search(r'"run":"([^"]*)"', shard[min(at, len(shard)) - 1]).group(1)
+    return [ln for ln in shard if f'"run":"{g}"' in ln]
 
 
 def replay(ctx, path):
     ctx.build()
-    rej = ctx.validate("Trace_C19", path, shard=10**9)
-    ctx.confirm_and_raise("Trace_C19", rej)
+    mod = "Trace_C19h" if '"ev":"header"' in open(path).readline() else "Trace_C19"
+    rej = ctx.validate(mod, path, shard=10**9)
+    ctx.confirm_and_raise(mod, rej, context_of=(lambda shard, at: shard) if mod == "Trace_C19h" else None)
